@@ -147,7 +147,7 @@ def handle (op : String) (j : Json) : Option (Except String Json) :=
       let calls ← cs.toList.mapM (fun c => match c.getObjValAs? Nat "seed" with
         | .ok s => do
           let r ← c.getObjValAs? Nat "req"
-          pure (RngCall.seeded (G := Option Nat) s [r])
+          pure (RngCall.seeded (G := Option Nat) s [[r]])
         | .error _ => pure (RngCall.other (fun _ => none)))
       let tr := trace (seededStep M) none calls
       pure (answer [] (tr.map (fun r => toJson r.2)))
